@@ -94,6 +94,35 @@ def _table(ctx):
                 ctx.violation(f"strict-origin-outside-table:{n.kind}:{lbl}", f"strict {n.src} accepted {lbl} -> {out!r}", {"type": n.src})
 
 
+def _one_shot_iterables(ctx):
+    """Iterators, generators and map objects (the whole datum, or an element of it) where an iterable or a fixed tuple is expected: what strict
+    takes, lax takes too, in every debug mode (seeded change: the lax FIRST / ALL fixed-tuple loader lost its tuple(data) and met len())."""
+    I, S = spec.IntT(), spec.StrT()
+    pair2 = spec.TupleT([I, I])
+    cases = [(spec.TupleT([I]), (7,)), (spec.TupleT([I, S]), (1, "a")), (spec.TupleT([I, S, I]), (1, "a", 2)), (spec.TupleT([pair2, S]), ((1, 2), "z")), (spec.TupleT([]), ())]
+    cases += [(spec.IterT(k, I), [1, 2, 3]) for k in ("List", "Set", "FrozenSet", "Deque", "VarTuple", "Sequence", "Iterable", "Collection")]
+    cases += [(spec.IterT("List", pair2), [(1, 2), (3, 4)]), (spec.IterT("VarTuple", spec.TupleT([I])), [(1,), (2,)]), (spec.DictT("Dict", S, pair2), {"k": (1, 2)})]
+    wraps = [("iter", iter), ("generator", lambda v: (x for x in v)), ("map", lambda v: map(lambda x: x, v)), ("reversed", lambda v: reversed(list(reversed(list(v)))))]
+
+    def shapes(v):
+        # the whole datum one-shot, or every direct child one-shot
+        if isinstance(v, dict):
+            for wn, w in wraps:
+                yield f"values-{wn}", (lambda v=v, w=w: {k: w(x) for k, x in v.items()})
+            return
+        for wn, w in wraps:
+            yield f"whole-{wn}", (lambda v=v, w=w: w(v))
+            if v and all(isinstance(x, tuple) for x in v):
+                yield f"children-{wn}", (lambda v=v, w=w: [w(x) for x in v])
+                yield f"both-{wn}", (lambda v=v, w=w: w([w(x) for x in v]))
+            elif any(isinstance(x, tuple) for x in v):
+                yield f"children-{wn}", (lambda v=v, w=w: [w(x) if isinstance(x, tuple) else x for x in v])
+    for node, v in cases:
+        prog = Program(node)
+        check(ctx, node, prog, [(lbl, fac, True) for lbl, fac in shapes(v)])
+        ctx.count("one_shot_shapes", sum(1 for _ in shapes(v)))
+
+
 def _confusable_literals(ctx):
     """All spellings of {0|False} x {1|True} in ONE type: strict mode must not take a bool where the int literal is required (and vice versa)."""
     sets = [(0, 1), (False, True), (0, True), (False, 1), (1, 0), (True, False), ("x", 0, True), ("x", False, True)]
@@ -243,4 +272,4 @@ def _list_layouts_refuse_mappings(ctx):
                     ctx.violation("strict-accepts-what-lax-rejects:list-layout", f"{label} <- {dl}: strict {a!r:.80}, lax {b!r:.80}", info)
 
 
-DIRECTED = {"list-layouts-refuse-mappings": _list_layouts_refuse_mappings, "enum-members-in-literals": _enum_members_in_literals, "coercion-mode-of-clones": _modes_of_clones, "scalar-table-x-pool": _table, "confusable-literals-in-one-type": _confusable_literals, "confusable-literals-one-by-one": _confusable_literals_one_by_one}
+DIRECTED = {"one-shot-iterables": _one_shot_iterables, "list-layouts-refuse-mappings": _list_layouts_refuse_mappings, "enum-members-in-literals": _enum_members_in_literals, "coercion-mode-of-clones": _modes_of_clones, "scalar-table-x-pool": _table, "confusable-literals-in-one-type": _confusable_literals, "confusable-literals-one-by-one": _confusable_literals_one_by_one}
